@@ -45,6 +45,8 @@ pub struct Ctx {
     pub tier: Tier,
     pub seed: u64,
     pub verif_dir: PathBuf,
+    /// where evidence/ and replays/ are written (VERIF_OUT_DIR, default = verif_dir)
+    pub out_dir: PathBuf,
     /// Scale factor applied to every case count (VERIF_SCALE, default 1.0).
     pub scale: f64,
 }
@@ -516,7 +518,7 @@ fn record_violation(ctx: &Ctx, rep: &Report, sub: &str, f: &Fail, case: Value) {
         }
         return;
     }
-    let dir = ctx.verif_dir.join("replays");
+    let dir = ctx.out_dir.join("replays");
     let _ = std::fs::create_dir_all(&dir);
     let h = hash64(&(sub, &f.sig, case.to_string()));
     let path = dir.join(format!("{}-{}-{:016x}.json", ctx.prop, sub, h));
@@ -621,7 +623,7 @@ pub fn run_property(ctx: &Ctx, pc: &PropertyCheck, only_sub: Option<&str>) -> i3
         "violations": r.violations.len(),
         "violation_details": r.violations,
     });
-    let edir = ctx.verif_dir.join("evidence");
+    let edir = ctx.out_dir.join("evidence");
     let _ = std::fs::create_dir_all(&edir);
     if only_sub.is_none() {
         let _ = std::fs::write(
